@@ -106,10 +106,12 @@ def make_judges(ctx):
         ctx.floor_hit(('route', si.route + ('.raw' if si.raw else '')))
 
     def extprec_judge(ev):
-        if ev.kind != 'method' or ev.op not in ('__init__', 'resize', 'reset') or ev.exc is not None:
+        if ev.kind != 'method' or ev.op not in ('__init__', 'resize', 'reset', '__getitem__', 'like', 'deepcopy') or ev.exc is not None:
             return
         post = ev.post[0] if ev.post else None
         pre = ev.pre[0] if ev.pre else None
+        if ev.op in ('__getitem__', 'like', 'deepcopy'):
+            post = ev.result_snap
         if post is None:
             return
         if not (post.n_word >= 54 or (pre is not None and pre.n_word >= 54)):
@@ -137,7 +139,7 @@ def make_judges(ctx):
 def floors(tier):
     cells = [('store', n, o) for n in WIDTHS for o in ('saturate', 'wrap')]
     cells += [('route', r) for r in ('constructor.raw', 'constructor', 'set_val.raw', 'set_val', 'call')]
-    cells += [('extprec', op, b) for op in ('__init__', 'resize', 'reset') for b in (True, False)]
+    cells += [('extprec', op, b) for op in ('__init__', 'resize', 'reset') for b in (True, False)] + [('extprec', '__getitem__', True), ('extprec', 'like', True), ('extprec', 'like', False)]
     cells += [('render', 'bin'), ('render', 'hex'), ('parse', 'bin', 'constructor', 'raw'), ('parse', 'hex', 'constructor', 'raw'), ('parse', 'bin', 'set_val', 'raw'),
               ('not', '-'), ('and', 'Fxp'), ('or', '+mask'), ('xor', '-mask')]
     return cells
@@ -214,6 +216,15 @@ def run_case(case, ctx):
     _try(lambda: ~za)
     zb = Fxp([[hi, 1], [lo, inr[0]]], s, n, nf, raw=True)        # codes beyond 2^63 next to short ones
     c11.roundtrip(ctx, zb, s, n, nf)
+    # objects derived from a wide one keep the indicator
+    wide = Fxp([inr[0], inr[1]], s, n, nf, raw=True)
+    _try(lambda: Fxp(inr[2], like=wide, raw=True))
+    _try(lambda: Fxp(None, like=wide))
+    _try(lambda: wide[0])
+    _try(lambda: wide[1:])
+    _try(lambda: wide.deepcopy())
+    _try(lambda: Fxp(3, s, 16, 0).like(wide))
+    _try(lambda: Fxp(inr[0], s, n, nf, raw=True).like(Fxp(None, s, 32, 0)))
     # extended_prec indicator across the boundary, both directions
     t = Fxp(3, s, 60, 0)
     _try(lambda: t.resize(s, n, 0))
